@@ -1116,11 +1116,23 @@ func (vc *VC) iterateCallback(fr *Frame, st *State, instr *ssa.Call, c *ssa.Call
 	if all {
 		vc.havocAll(st, nil)
 	} else {
+		// rows the callback cannot write: the caller's non-escaping locals and its write-once captured variables
+		keep := fr.allLocalRoots()
 		for n := range mods {
+			var prev Term
+			havePrev := false
 			if cur, ok := st.mem[n]; ok {
+				prev, havePrev = cur, true
 				st.mem[n] = vc.q.Fresh(n+"$cb", cur.Sort)
 			} else if srt, ok := vc.memSorts[n]; ok {
 				st.mem[n] = vc.q.Fresh(n+"$cb", srt)
+			}
+			if havePrev && strings.HasPrefix(string(prev.Sort), "(Array Int (Array Path") && len(keep) > 0 {
+				cur := st.mem[n]
+				for _, r := range keep {
+					cur = Store(cur, r, Select(prev, r))
+				}
+				st.mem[n] = vc.q.Define(n+"$cbk", cur)
 			}
 		}
 	}
